@@ -33,6 +33,10 @@ Cases ==
   \cup {[fam |-> "xfer", kind |-> "wire", proto |-> pr, pipe |-> Str(p), payload |-> d, expect |-> "roundtrip"] :
            pr \in {"raw", "json", "pb", "thriftbin"}, p \in SeqsUpTo(2), d \in {"empty", "b1", "rand4k"}}
   \cup {[fam |-> "xfer", kind |-> "wireunreg", proto |-> pr, pipe |-> "g", payload |-> "b1", expect |-> "refused"] : pr \in {"raw", "json"}}
+  \* a frame whose payload is packed with the registered filters only, while its header also names an unregistered one
+  \* ("?" = the unregistered id): it must be refused, not decoded with the filters that happen to be known
+  \cup {[fam |-> "xfer", kind |-> "wireunregplain", proto |-> pr, pipe |-> p, payload |-> "b1", expect |-> "refused"] :
+           pr \in {"raw", "json"}, p \in {"?", "??", "g?", "gm?"}}
   \cup {[fam |-> "xfer", kind |-> "replypipe", proto |-> pr, pipe |-> Str(p), payload |-> "rand4k", expect |-> "replypipe"] :
            pr \in {"raw", "json"}, p \in SeqsUpTo(2)}
 
